@@ -86,7 +86,7 @@ func (fr *frame) builtin(x ssa.CallInstruction, b *ssa.Builtin, st *State) Val {
 		case SliceV:
 			t = tv
 		case StrV: // append([]byte, string...)
-			t = SliceV{Elem: a.Elem, Len: tv.Len, Off: tv.Off, Nil: "false", Elems: []string{tv.Arr}}
+			t = SliceV{Elem: a.Elem, Len: tv.Len, Off: "0", Nil: "false", Elems: []string{fx.shiftArr(tv.Arr, tv.Off, tv.Len, SInt)}}
 		default:
 			panic(unsupported("append operand"))
 		}
@@ -113,8 +113,8 @@ func (fr *frame) builtin(x ssa.CallInstruction, b *ssa.Builtin, st *State) Val {
 			r := s.fresh("app", arrOf(fx.g.leaves(a.Elem)[i].S))
 			elems[i] = r
 			k := sym(fmt.Sprintf("k!%d", len(s.Items)))
-			s.assert(fmt.Sprintf("(forall ((%s Int)) (! (=> (and (<= 0 %s) (< %s %s)) (= (select %s (+ %s %s)) (select %s (+ %s %s)))) :pattern ((select %s (+ %s %s)))))",
-				k, k, k, a.Len, r, a.Off, k, a.Elems[i], a.Off, k, r, a.Off, k))
+			s.assert(fmt.Sprintf("(forall ((%s Int)) (! (=> (and (<= 0 %s) (< %s %s)) (= (select %s %s) (select %s %s))) :pattern ((select %s %s))))",
+				k, k, k, a.Len, r, k, a.Elems[i], k, r, k))
 			s.usesQuant = true
 			for j := 0; j < 4; j++ {
 				js := num(int64(j))
@@ -122,6 +122,16 @@ func (fr *frame) builtin(x ssa.CallInstruction, b *ssa.Builtin, st *State) Val {
 			}
 		}
 		return SliceV{Elem: a.Elem, Len: s.define("len", SInt, add(a.Len, t.Len)), Off: a.Off, Nil: and(a.Nil, eq(t.Len, "0")), Elems: elems}
+	case "min", "max":
+		if len(cc.Args) != 2 {
+			panic(unsupported("min/max with more than two operands"))
+		}
+		x0, x1 := fr.val(cc.Args[0]).(Sc).T, fr.val(cc.Args[1]).(Sc).T
+		op := "<="
+		if b.Name() == "max" {
+			op = ">="
+		}
+		return Sc{s.define(b.Name(), SInt, ite(app(op, x0, x1), x0, x1)), SInt}
 	case "recover":
 		if fr.recoverV != nil {
 			fr.recovered = true
@@ -223,6 +233,18 @@ func (fr *frame) applyContract(x ssa.CallInstruction, callee *ssa.Function, meth
 		} else {
 			c := s.fresh("hv!"+l.leaf, l.sort)
 			st.heap[l.leaf] = s.define("H!"+l.leaf, arrOf(l.sort), store(arr, l.addr, c))
+		}
+	}
+	// a callee that receives a slice of a local array may write the array through it
+	for _, a := range x.Common().Args {
+		if org, ok := fr.sliceOrigin[a]; ok {
+			at := org.Elem.Underlying().(*types.Array)
+			for _, l := range fx.g.leaves(at.Elem()) {
+				leaf := org.HT + org.Path + ".elem" + l.Path
+				arr := fx.heapLeaf(st, leaf, arrOf(l.S))
+				fx.g.leafSorts[leaf] = arrOf(l.S)
+				st.heap[leaf] = s.define("H!"+leaf, arrOf(arrOf(l.S)), store(arr, org.Addr, s.fresh("written", arrOf(l.S))))
+			}
 		}
 	}
 	if pcond != "false" {
